@@ -12,6 +12,8 @@
 #include <fcppt/impl/codecvt_type.hpp>
 #include <fcppt/optional/object_impl.hpp>
 #include <fcppt/config/external_begin.hpp>
+#include <algorithm>
+#include <cwchar>
 #include <iterator>
 #include <locale>
 #include <string>
@@ -42,6 +44,9 @@ fcppt::optional::object<std::basic_string<Out>> codecvt(
   auto const &conv(std::use_facet<fcppt::impl::codecvt_type>(_locale));
 
   buffer_type buf{_string.size()};
+
+  // A write area of this size can hold the conversion of any single character.
+  typename buffer_type::size_type const max_length{fcppt::cast::to_unsigned(conv.max_length())};
 
   using state_type = fcppt::impl::codecvt_type::state_type;
 
@@ -76,14 +81,24 @@ fcppt::optional::object<std::basic_string<Out>> codecvt(
     case std::codecvt_base::error:
       return optional_return_type{};
     case std::codecvt_base::partial:
-      if (written == 0U)
+      // Nothing was converted although there was room for any character: The
+      // input ends with an incomplete character.
+      if (written == 0U && buf.write_size() >= max_length)
       {
-        return optional_return_type{return_type(buf.begin(), buf.end())};
+        return optional_return_type{};
       }
 
-      buf.resize_write_area(buf.read_size() * 2U);
+      // Otherwise, the write area was too small for the next character.
+      buf.resize_write_area(std::max(buf.read_size() * 2U, max_length));
       continue;
     case std::codecvt_base::ok:
+      // An incomplete character at the end of the input can also be consumed
+      // into the conversion state without being reported as partial.
+      if (std::mbsinit(&state) == 0)
+      {
+        return optional_return_type{};
+      }
+
       return optional_return_type{return_type(buf.begin(), buf.end())};
     }
 
